@@ -88,6 +88,9 @@ def rule_mask_algebra(ctx, rid):
             problems['remove'] = 'masks are not subtracted from the stacked members: %s' % show(im)[:70]
             continue
         conc, M = im[2], im[3]
+        if conc[0] == 'call' and conc[1] in ('numpy.hstack', 'numpy.column_stack') and len(conc[2]) == 1 and not conc[3]:
+            # the members are [samples x 1] columns (C03.R6): hstack / column_stack of them is concatenation on axis 1
+            conc = ('call', 'numpy.concatenate', conc[2], (('axis', C(1)),))
         if not (conc[0] == 'call' and conc[1] == 'numpy.concatenate' and dict(conc[3]).get('axis') == C(1)
                 and conc[2] and conc[2][0][0] == 'comp'):
             problems['remove'] = 'members are not stacked column-wise in order: %s' % show(conc)[:70]
@@ -128,7 +131,13 @@ def rule_mask_algebra(ctx, rid):
             if added is None or alg.poly(('bin', '+', S(fi.params[0]), added)) != p:
                 problems['worker'] = 'member input is %s, expected X + mask column' % str(p)[:80]
                 continue
-        if not (added[0] == 'sub' and added[2][0] == 'tuple' and len(added[2][1]) >= 2 and added[2][1][1] == ivar):
+        def _is_col(ix):
+            # column k of the matrix: [:, k] / [:, k, None] / [:, k:k+1]
+            if ix == ivar:
+                return True
+            return ix[0] == 'slice' and ix[1] == ivar and alg.poly(ix[2]) == alg.poly(('bin', '+', ivar, C(1))) \
+                and ix[3] == C(None)
+        if not (added[0] == 'sub' and added[2][0] == 'tuple' and len(added[2][1]) >= 2 and _is_col(added[2][1][1])):
             problems['remove'] = 'the added mask is %s (not column k of the mask matrix)' % show(added)[:60]
             continue
         M2 = added[1]
